@@ -66,7 +66,8 @@ WordChunks(x) == CASE x = "crE2me" -> <<"cr", "E2", "me">> [] x = "a\\@b" -> <<"
 WordText(x)   == CASE x = "a\\@b" -> "a@b" [] OTHER -> x
 Inlines == {[n |-> "180", u |-> "C"], [n |-> "5", u |-> "min"], [n |-> "2", u |-> "bags"]}
 MetaPool == {[k |-> "title", v |-> "Soup"], [k |-> "servings", v |-> "2"], [k |-> "servings", v |-> "2|4"],
-             [k |-> "k", v |-> "v w"], [k |-> "source", v |-> "book"], [k |-> "servings", v |-> "3 cups"]}
+             [k |-> "k", v |-> "v w"], [k |-> "source", v |-> "book"], [k |-> "servings", v |-> "3 cups"],
+             [k |-> "servings", v |-> "6|2"], [k |-> "servings", v |-> "4 | 2 | 8"]}
 SectionNames == IF Kernel = "full" THEN {"", "Prep", "Main part"} ELSE {"", "S"}
 
 (* ---- spelling parameters -------------------------------------------------------------------- *)
